@@ -1246,7 +1246,7 @@ pub fn run_c11(tier: Tier) -> i32 {
     for g in ["stream-dropped-with-replies-still-owed", "peer-hangs-up-while-items-are-held", "replies-padded-with-extra-NULs", "item-held-across-a-later-read", "item-held-while-rest-is-buffered", "replies-in-separate-reads", "replies-coalesced-in-one-read", "more-call-with-continuing-replies"] {
         rep.require_goal(g);
     }
-    let wall = std::time::Duration::from_secs(tier.pick(60, 900));
+    let wall = std::time::Duration::from_secs(tier.pick(60, 600));
     let plan: Vec<(&str, ChainH, u32)> = match tier {
         Tier::Quick => vec![
             ("hold-inter/<=2calls", ChainH { max_calls: 2, cuts: Cuts::FreeInter, hold: true, sizes: vec![20, 300], pend: false, max_cont: 2, pad: true }, 1),
@@ -1259,8 +1259,9 @@ pub fn run_c11(tier: Tier) -> i32 {
             // (three calls x four sizes x padding x hang-ups x dropped streams is beyond 5 * 10^8
             // executions: the product is split)
             ("hold-inter/<=3calls", ChainH { max_calls: 3, cuts: Cuts::FreeInter, hold: true, sizes: vec![20, 300], pend: false, max_cont: 1, pad: false }, 1),
-            ("hold-inter/<=2calls/4-sizes", ChainH { max_calls: 2, cuts: Cuts::FreeInter, hold: true, sizes: vec![20, 200, 300, 600], pend: false, max_cont: 2, pad: true }, 1),
-            ("hold-dev/<=3calls", ChainH { max_calls: 3, cuts: Cuts::Dev, hold: true, sizes: vec![20, 300], pend: true, max_cont: 2, pad: true }, 2),
+            ("hold-inter/<=2calls/4-sizes", ChainH { max_calls: 2, cuts: Cuts::FreeInter, hold: true, sizes: vec![20, 200, 300, 600], pend: false, max_cont: 1, pad: true }, 1),
+            ("hold-dev/<=3calls", ChainH { max_calls: 3, cuts: Cuts::Dev, hold: true, sizes: vec![20, 300], pend: false, max_cont: 1, pad: true }, 2),
+            ("hold-dev1/<=4calls", ChainH { max_calls: 4, cuts: Cuts::Dev, hold: true, sizes: vec![20, 300], pend: true, max_cont: 2, pad: true }, 1),
             ("hold-dev/<=3calls/110-byte-replies", ChainH { max_calls: 3, cuts: Cuts::Dev, hold: true, sizes: vec![64, 70], pend: false, max_cont: 2, pad: false }, 2),
         ],
     };
